@@ -303,3 +303,21 @@ func Replay(f core.Failure) (string, string) {
 	}
 	return "", ""
 }
+
+// Programs streams the text of every program of every family at the tier of c (each prefixed
+// with the family name and a NUL), for checks that reuse the grammar without executing anything.
+func Programs(c *core.Check, emit func(s string) bool) {
+	for _, f := range families(c) {
+		stop := false
+		f.gen(c, func(p Program) bool {
+			if !emit(f.name + "\x00" + p.Text) {
+				stop = true
+				return false
+			}
+			return true
+		})
+		if stop {
+			return
+		}
+	}
+}
